@@ -265,18 +265,25 @@ static std::vector<Step> make_alphabet(const Schema &s) {
     const int C = (int)s.cols.size();
     for (int n = 0; n <= MAXR; n++) A.push_back(Step{ROWS, n, 0, 0, 0, 0});
     for (int r = 0; r < MAXR; r++) A.push_back(Step{WROW, r, 0, 0, 0, 0});
+    // single cells: every (row, column) up to 3 columns, a diagonal pattern above
     if (C <= 3) { for (int r = 0; r < MAXR; r++) for (int c = 0; c < C; c++) A.push_back(Step{WCELL, r, c, 0, 0, 0}); }
     else for (int c = 0; c < C; c++) A.push_back(Step{WCELL, c % MAXR, c, 0, 0, 0});
-    if (C <= 3) { for (int r = 0; r < MAXR; r++) for (int k = 0; k < (int)s.subs.size(); k++) A.push_back(Step{WCELLS, r, k, 0, 0, 0}); }
-    else for (int k = 0; k < (int)s.subs.size(); k++) A.push_back(Step{WCELLS, k % MAXR, k, 0, 0, 0});
-    // (offset, len): relative to the current row count these are inside, touching or past the end; (0,0) is the empty write
+    // cell subsets: 1 column: every row; 2-3 columns: (row, subset) pairs in a checkerboard; above: subset k on row k mod 3
+    for (int r = 0; r < MAXR; r++) for (int k = 0; k < (int)s.subs.size(); k++) {
+        bool take = C == 1 ? true : C <= 3 ? (r + k) % 2 == 0 : r == k % MAXR;
+        if (take) A.push_back(Step{WCELLS, r, k, 0, 0, 0});
+    }
+    // (offset, len): relative to the current row count these are inside, touching or past the end; (0,0) is the empty write.
+    // 1 column: all 9; 2 columns: all 9 on the second, 4 on the first; more: 3 per column, rotating through the list.
     static const int P[][2] = {{0, 1}, {0, 2}, {0, 3}, {1, 1}, {1, 2}, {2, 1}, {2, 2}, {3, 1}, {0, 0}};
-    const int NP = 9;
     int nb = 0;
     for (int c = 0; c < C; c++) {
         if (s.cols[c].dtype == DataType::Bool) continue;   // std::vector<bool> cannot go through the column path
-        if (C <= 3) { for (int p = 0; p < NP; p++) A.push_back(Step{WCOL, c, P[p][0], P[p][1], (p + c) % 2, 0}); }
-        else for (int q : {0, 3, 5}) { int p = (nb * 2 + q) % 8; A.push_back(Step{WCOL, c, P[p][0], P[p][1], (p + c) % 2, 0}); }
+        std::vector<int> pl;
+        if (C == 1 || (C == 2 && c == 1)) pl = {0, 1, 2, 3, 4, 5, 6, 7, 8};
+        else if (C == 2) pl = {0, 2, 4, 5};
+        else pl = {(nb * 2) % 8, (nb * 2 + 3) % 8, (nb * 2 + 5) % 8};
+        for (int p : pl) A.push_back(Step{WCOL, c, P[p][0], P[p][1], (p + c) % 2, 0});
         nb++;
     }
     A.push_back(Step{REOPEN, 0, 0, 0, 0, 0});
@@ -329,6 +336,15 @@ struct Model {
     }
 };
 
+// model only: class of the LAST step of the sequence (0 = not enabled there); only the row count matters for that
+static int classify_last(const Schema &s, int seed, const std::vector<Step> &seq) {
+    Model m(s);
+    m.R = seed ? 2 : 0;
+    int cl = 0;
+    for (const Step &st : seq) { cl = m.classify(st); if (cl == 1 && st.kind == ROWS) m.R = st.a; }
+    return cl;
+}
+
 static std::string op_class(const Schema &s, const Model &m, const Step &st) {
     switch (st.kind) {
     case ROWS: return st.a > m.R ? "rows(grow)" : st.a < m.R ? "rows(shrink)" : "rows(same)";
@@ -346,8 +362,20 @@ static std::string op_class(const Schema &s, const Model &m, const Step &st) {
     return "?";
 }
 
+// coarse class of an operation for violation signatures
+static std::string op_sig(const Model &m, const Step &st) {
+    switch (st.kind) {
+    case ROWS: return st.a > m.R ? "rows(grow)" : st.a < m.R ? "rows(shrink)" : "rows(same)";
+    case WROW: return "writeRow";
+    case WCELL: return "writeCell";
+    case WCELLS: return "writeCells";
+    case WCOL: return st.c == 0 ? "writeColumn(empty vector)" : st.b + st.c > m.R ? "writeColumn(past the end)" : "writeColumn(within the rows)";
+    case REOPEN: return "REOPEN";
+    }
+    return "?";
+}
+
 // ---------------------------------------------------------------- runner
-static double T_check = 0, T_cols = 0, T_schema = 0;
 struct Obs { bool kept; std::string path; std::string got; };
 
 struct Runner {
@@ -355,6 +383,13 @@ struct Runner {
     std::string path;
     Runner(const Schema &s, const std::string &p) : S(s), path(p) {}
 
+    bool quiet = false;     // run and check, but report nothing (used to decide whether a leading step can be extended)
+    long nviol = 0;         // deviations found by the current run
+    void viol(const std::string &sig, const std::string &what) { nviol++; if (!quiet) vf::violation(sig, what); }
+    void cnt(const char *name, long n = 1) { if (!quiet) vf::count(name, n); }
+    void dst(const char *bucket, const std::string &v) { if (!quiet) vf::distinct(bucket, v); }
+
+    uint64_t rot = 0;       // derived from the sequence: rotates the variants that are not all taken on every trace
     std::string trace;      // the sequence with the values written, for messages
     std::string lastop;     // class of the last step
     std::map<std::pair<int, int>, std::vector<Obs>> seen;
@@ -369,8 +404,9 @@ struct Runner {
 
     // executes the steps on a fresh file; with report: counts, and checks every read path after the LAST step.
     // returns true iff the last step was enabled, behaved as the model says and changed the frame's history (the trace may be extended)
-    bool run(int seed, const std::vector<Step> &steps, bool report) {
+    bool run(int seed, const std::vector<Step> &steps, bool report, bool quietly = false) {
         vf::set_clock(1500000000);
+        quiet = quietly; nviol = 0;
         Model m(S);
         Gen gen;
         trace = seed ? "seed{rows(2);writeRow(0);writeRow(1)}" : "seed{}";
@@ -381,7 +417,7 @@ struct Runner {
         std::string what;
         std::string exc = vf::guarded([&] { df = b.createDataFrame("frame", "t", S.cols); }, &what);
         if (!exc.empty()) {
-            if (report) vf::violation("C15|createDataFrame|" + S.cls + " schema|rejected|" + exc, "schema " + S.label + ": " + what);
+            if (report) viol("C15|createDataFrame|" + S.cls + " schema|rejected|" + exc, "schema " + S.label + ": " + what);
             return false;
         }
         if (seed) {
@@ -394,7 +430,7 @@ struct Runner {
                 }
             }, &what);
             if (!exc.empty()) {
-                if (report) vf::violation("C15|writeRow|" + S.cls + " schema, seed|rejected|" + exc, "schema " + S.label + " seed: " + what);
+                if (report) viol("C15|writeRow|" + S.cls + " schema, seed|rejected|" + exc, "schema " + S.label + " seed: " + what);
                 return false;
             }
         }
@@ -408,6 +444,7 @@ struct Runner {
             int cl = m.classify(st);
             if (cl == 0) return false;
             std::string opc = op_class(S, m, st);
+            std::string ops = op_sig(m, st);
             std::string desc = step_str(S, st);
             std::vector<Val> vals;       // the values handed to the library
             std::function<void()> call, apply;
@@ -466,24 +503,25 @@ struct Runner {
             if (!vals.empty()) { trace += "<-["; for (size_t k = 0; k < vals.size(); k++) trace += (k ? "," : "") + show(vals[k]); trace += "]"; }
             exc = vf::guarded(call, &what);
             if (rep) {
-                vf::count("steps_checked");
-                vf::distinct("outcomes", opc + "|" + (exc.empty() ? "accepted" : exc));
-                for (auto &v : vals) vf::distinct("values", std::string(tname(v.t)) + "|" + v.cls);
+                cnt("steps_checked");
+                dst("outcomes", opc + "|" + (exc.empty() ? "accepted" : exc));
+                if (vf::opt.verbose && !quiet) fprintf(stderr, "C15 trace: %s => %s%s%s\n", trace.c_str(), exc.empty() ? "accepted" : exc.c_str(), exc.empty() ? "" : ": ", exc.empty() ? "" : what.c_str());
+                for (auto &v : vals) dst("values", std::string(tname(v.t)) + "|" + v.cls);
             }
-            lastop = opc;
+            lastop = ops;
             if (cl == 1) {
                 if (!exc.empty()) {
-                    if (rep) vf::violation("C15|" + opc + "|" + S.cls + " schema|legal operation rejected|" + exc, "schema " + S.label + ": " + trace + " threw " + exc + ": " + what);
+                    if (rep) viol("C15|" + ops + "|" + S.cls + " schema|legal operation rejected|" + exc, "schema " + S.label + ": " + trace + " threw " + exc + ": " + what);
                     return false;     // the trace is not extended past the first failing step
                 }
                 apply();
             } else if (cl == 2) {
-                if (rep) vf::count("rejections_expected");
+                if (rep) cnt("rejections_expected");
                 if (exc.empty()) {
                     if (rep) {
                         std::string rows_now = "?";
                         vf::guarded([&] { rows_now = std::to_string(df.rows()); });
-                        vf::violation("C15|" + opc + "|" + std::string(tname(S.cols[st.a].dtype)) + " column|write past the end of the rows must be rejected|accepted",
+                        viol("C15|" + ops + "|" + std::string(tname(S.cols[st.a].dtype)) + " column|write past the end of the rows must be rejected|accepted",
                                       "schema " + S.label + ": " + trace + " returned normally with " + std::to_string(m.R) + " rows (rows() afterwards: " + rows_now + ")");
                     }
                     return false;
@@ -493,15 +531,14 @@ struct Runner {
                 extend = false;       // outcome not asserted; must change nothing
             }
         }
+        rot = gen.h >> 1;
         if (report && !steps.empty()) {
-            double t0 = vf::wall();
             check(f, b, df, m);
-            T_check += vf::wall() - t0;
-            vf::distinct("states", m.state_key());
+            dst("states", m.state_key());
         }
         df = DataFrame(); b = Block();
         f.close();
-        return extend;
+        return extend && nviol == 0;     // a trace is not extended past the first step after which something is wrong
     }
 
     // ------------------------------------------------------------ the oracle
@@ -509,14 +546,14 @@ struct Runner {
 
     void see(bool kept, const std::string &p, int r, int c, const Val &got) {
         seen[std::make_pair(r, c)].push_back(Obs{kept, p, key(got)});
-        vf::count("cell_reads");
+        cnt("cell_reads");
     }
     void read_throws(bool kept, const std::string &p, const std::string &input, const std::string &exc, const std::string &what, const Model &m) {
-        vf::violation("C15|" + p + "|" + input + "|read of existing cells throws|" + exc, ctx(m) + " ; then " + (kept ? "kept" : "fresh") + " handle " + p + " threw " + exc + ": " + what);
+        viol("C15|" + p + "|" + input + "|read of existing cells throws|" + exc, ctx(m) + " ; then " + (kept ? "kept" : "fresh") + " handle " + p + " threw " + exc + ": " + what);
     }
 
     template <typename T>
-    void check_column(DataFrame &h, bool kept, int c, const Model &m) {
+    void check_column(DataFrame &h, bool kept, bool full, int c, const Model &m) {
         const std::string &name = S.cols[c].name;
         const std::string tn = std::string(tname(S.cols[c].dtype)) + " column";
         const int R = m.R;
@@ -524,14 +561,14 @@ struct Runner {
         auto cmp = [&](const std::string &p, const std::vector<T> &v, int off, int n, size_t expect_size) {
             // v[0..n) are rows off..off+n, the rest of v must still be the sentinel
             if (v.size() != expect_size) {
-                vf::violation("C15|" + p + "|" + tn + "|size of the result vector|" + (v.size() < expect_size ? "too short" : "too long"),
+                viol("C15|" + p + "|" + tn + "|size of the result vector|" + (v.size() < expect_size ? "too short" : "too long"),
                               ctx(m) + " ; then " + p + "(offset " + std::to_string(off) + ") left a vector of " + std::to_string(v.size()) + " elements, expected " + std::to_string(expect_size));
                 return;
             }
             for (int k = 0; k < n; k++) see(kept, p, off + k, c, Nat<T>::mk(v[k]));
             for (size_t k = (size_t)n; k < v.size(); k++)
                 if (!(key(Nat<T>::mk(v[k])) == key(Nat<T>::mk(Nat<T>::sentinel()))))
-                    vf::violation("C15|" + p + "|" + tn + "|elements beyond the requested count are untouched|overwritten",
+                    viol("C15|" + p + "|" + tn + "|elements beyond the requested count are untouched|overwritten",
                                   ctx(m) + " ; then " + p + "(offset " + std::to_string(off) + ", count " + std::to_string(n) + ") changed element " + std::to_string(k) + " of the vector to " + show(Nat<T>::mk(v[k])));
         };
         // (a) by name, resize = true, whole column
@@ -539,30 +576,37 @@ struct Runner {
             const std::string p = "readColumn(name,resize=true)";
             std::vector<T> v((size_t)R + 2, Nat<T>::sentinel());
             exc = vf::guarded([&] { h.readColumn(name, v, (bool)true, (ndsize_t)0); }, &what);
-            vf::count("read_calls");
+            cnt("read_calls");
             if (R == 0) {
                 // no cell exists: whether an empty read is served is not part of the statement; if it is, the result is empty
-                vf::distinct("outcomes", "readColumn of a frame without rows|" + (exc.empty() ? std::string("returns") : exc));
+                dst("outcomes", "readColumn of a frame without rows|" + (exc.empty() ? std::string("returns") : exc));
+                if (vf::opt.verbose) fprintf(stderr, "C15   readColumn of a frame without rows: %s %s\n", exc.empty() ? "returns" : exc.c_str(), exc.empty() ? "" : what.c_str());
                 if (exc.empty() && !v.empty()) cmp(p, v, 0, 0, 0);
             } else if (!exc.empty()) read_throws(kept, p, tn, exc, what, m);
             else cmp(p, v, 0, R, (size_t)R);
         }
+        if (!full) return;
+        // the offsets that are not all taken on every trace rotate with the sequence
+        const int offB = R >= 2 ? 1 + (int)(rot % (uint64_t)(R - 1)) : 0;
+        const int offC = R >= 2 ? 1 + (int)((rot / 2) % (uint64_t)(R - 1)) : 0;
+        const int offE = (R >= 2 && (rot & 1)) ? R - 1 : 0;
         // (b) by index, resize = true, with an offset
-        for (int off = 1; off < R; off++) {
+        for (int off = offB; off >= 1 && off == offB; off++) {
             const std::string p = "readColumn(index,resize=true,offset)";
             std::vector<T> v(1, Nat<T>::sentinel());
             exc = vf::guarded([&] { h.readColumn((unsigned)c, v, (bool)true, (ndsize_t)off); }, &what);
-            vf::count("read_calls");
+            cnt("read_calls");
             if (!exc.empty()) read_throws(kept, p, tn, exc, what, m);
             else cmp(p, v, off, R - off, (size_t)(R - off));
         }
         // (c) resize = false into a pre-sized vector: the vector's size says how much to read (alternating by name / by index)
         for (int off = 0; off < R; off++) {
+            if (off != 0 && off != offC) continue;
             const bool byname = off % 2 == 0;
             const std::string p = byname ? "readColumn(name,resize=false,offset)" : "readColumn(index,resize=false,offset)";
             std::vector<T> v((size_t)(R - off), Nat<T>::sentinel());
             exc = vf::guarded([&] { if (byname) h.readColumn(name, v, (bool)false, (ndsize_t)off); else h.readColumn((unsigned)c, v, (bool)false, (ndsize_t)off); }, &what);
-            vf::count("read_calls");
+            cnt("read_calls");
             if (!exc.empty()) read_throws(kept, p, tn, exc, what, m);
             else cmp(p, v, off, R - off, (size_t)(R - off));
         }
@@ -571,18 +615,18 @@ struct Runner {
             const std::string p = "readColumn(index,resize=false,short vector)";
             std::vector<T> v(1, Nat<T>::sentinel());
             exc = vf::guarded([&] { h.readColumn((unsigned)c, v, (bool)false, (ndsize_t)0); }, &what);
-            vf::count("read_calls");
+            cnt("read_calls");
             if (!exc.empty()) read_throws(kept, p, tn, exc, what, m);
             else cmp(p, v, 0, 1, 1);
         }
         // (e) explicit count smaller than the vector, resize = false: the surplus element keeps the sentinel
-        for (int off = 0; off < R; off += (R > 1 ? R - 1 : 1)) {
+        for (int off = offE; off < R && off == offE; off++) {
             const bool byname = off != 0;
             const std::string p = byname ? "readColumn(name,count,resize=false,offset)" : "readColumn(index,count,resize=false,offset)";
             const int n = R - off;
             std::vector<T> v((size_t)n + 1, Nat<T>::sentinel());
             exc = vf::guarded([&] { if (byname) h.readColumn(name, v, (size_t)n, (bool)false, (ndsize_t)off); else h.readColumn((unsigned)c, v, (size_t)n, (bool)false, (ndsize_t)off); }, &what);
-            vf::count("read_calls");
+            cnt("read_calls");
             if (!exc.empty()) read_throws(kept, p, tn, exc, what, m);
             else cmp(p, v, off, n, (size_t)n + 1);
         }
@@ -591,23 +635,23 @@ struct Runner {
             const std::string p = "readColumn(name,count,resize=true)";
             std::vector<T> v(5, Nat<T>::sentinel());
             exc = vf::guarded([&] { h.readColumn(name, v, (size_t)R, (bool)true, (ndsize_t)0); }, &what);
-            vf::count("read_calls");
+            cnt("read_calls");
             if (!exc.empty()) read_throws(kept, p, tn, exc, what, m);
             else cmp(p, v, 0, R, (size_t)R);
         }
     }
 
-    void check_handle(DataFrame &h, bool kept, const Model &m) {
+    // full: every read path; otherwise schema, readRow of every row and one whole-column read per column
+    void check_handle(DataFrame &h, bool kept, bool full, const Model &m) {
         const int C = (int)S.cols.size();
         const std::string who = kept ? "kept handle" : "fresh handle";
         const std::string after = "after " + lastop;
         std::string what, exc;
         auto V = [&](const std::string &site, const std::string &assertion, const std::string &dev, const std::string &w) {
-            vf::violation("C15|" + site + "|" + after + ", " + S.cls + " schema|" + assertion + "|" + dev, ctx(m) + " ; then " + who + ": " + w);
+            viol("C15|" + site + "|" + after + ", " + S.cls + " schema|" + assertion + "|" + dev, ctx(m) + " ; then " + who + ": " + w);
         };
         // ---- schema ----
-        double tS = vf::wall();
-        vf::count("schema_checks");
+        cnt("schema_checks");
         ndsize_t nr = 9999;
         exc = vf::guarded([&] { nr = h.rows(); }, &what);
         if (!exc.empty()) { V("rows()", "throws", exc, what); return; }
@@ -638,26 +682,26 @@ struct Runner {
             exc = vf::guarded([&] { gn = h.colName(ri); }, &what);
             if (!exc.empty() || gn != rn) V("colName(indices)", "names of an index list", exc.empty() ? "wrong names" : exc, "colName(" + vf::jvec(ri) + ") = " + vf::jvecs(gn));
         }
-        T_schema += vf::wall() - tS;
         // ---- cells ----
         for (int r = 0; r < m.R; r++) {
             {
                 std::vector<Variant> row;
                 exc = vf::guarded([&] { row = h.readRow((ndsize_t)r); }, &what);
-                vf::count("read_calls");
+                cnt("read_calls");
                 if (!exc.empty()) read_throws(kept, "readRow", S.cls + " schema", exc, what, m);
                 else if ((int)row.size() != C) V("readRow", "one value per column", row.size() < (size_t)C ? "too few" : "too many", "readRow(" + std::to_string(r) + ") has " + std::to_string(row.size()) + " values");
                 else for (int c = 0; c < C; c++) see(kept, "readRow", r, c, from_variant(row[c]));
             }
+            if (!full) continue;
             for (int c = 0; c < C; c++) {
                 const std::string tn = std::string(tname(S.cols[c].dtype)) + " column";
                 Cell ce;
                 exc = vf::guarded([&] { ce = h.readCell((ndsize_t)r, (unsigned)c); }, &what);
-                vf::count("read_calls");
+                cnt("read_calls");
                 if (!exc.empty()) read_throws(kept, "readCell(index)", tn, exc, what, m); else see(kept, "readCell(index)", r, c, from_variant(ce));
                 Cell cn;
                 exc = vf::guarded([&] { cn = h.readCell((ndsize_t)r, S.cols[c].name); }, &what);
-                vf::count("read_calls");
+                cnt("read_calls");
                 if (!exc.empty()) read_throws(kept, "readCell(name)", tn, exc, what, m); else see(kept, "readCell(name)", r, c, from_variant(cn));
             }
             for (size_t k = 0; k < S.read_subsets.size(); k++) {
@@ -666,20 +710,18 @@ struct Runner {
                 const std::string p = k == 0 ? "readCells(all names)" : k == 1 ? "readCells(names reversed)" : "readCells(subset of names)";
                 std::vector<Cell> cells;
                 exc = vf::guarded([&] { cells = h.readCells((ndsize_t)r, want); }, &what);
-                vf::count("read_calls");
+                cnt("read_calls");
                 if (!exc.empty()) read_throws(kept, p, S.cls + " schema", exc, what, m);
                 else if (cells.size() != sub.size()) V(p, "one cell per requested name", cells.size() < sub.size() ? "too few" : "too many", "readCells(" + std::to_string(r) + "," + vf::jvecs(want) + ") has " + std::to_string(cells.size()) + " cells");
                 else for (size_t j = 0; j < sub.size(); j++) see(kept, p, r, sub[j], from_variant(cells[j]));
             }
         }
-        double tC = vf::wall();
         for (int c = 0; c < C; c++) {
             DataType dt = S.cols[c].dtype;
-#define CC(T) check_column<T>(h, kept, c, m)
+#define CC(T) check_column<T>(h, kept, full, c, m)
             DISPATCH(dt, CC)
 #undef CC
         }
-        T_cols += vf::wall() - tC;
     }
 
     std::string deviation(const Model &m, int r, int c, const std::string &got) const {
@@ -704,14 +746,21 @@ struct Runner {
 
     void check(File &, Block &b, DataFrame &kept, const Model &m) {
         seen.clear();
-        vf::count("invariant_checks");
-        check_handle(kept, true, m);
+        cnt("invariant_checks");
+        // both handles are read; which of them goes through every read path alternates with the sequence
+        const bool kept_full = ((rot >> 3) & 1) == 0;
+        check_handle(kept, true, kept_full, m);
         DataFrame fresh;
         std::string what;
         std::string exc = vf::guarded([&] { fresh = b.getDataFrame("frame"); }, &what);
-        if (!exc.empty() || !fresh) vf::violation("C15|Block::getDataFrame|after " + lastop + "|frame not found|" + (exc.empty() ? "none" : exc), ctx(m));
-        else check_handle(fresh, false, m);
-        // ---- verdict per cell: do the read paths agree with the grid? ----
+        if (!exc.empty() || !fresh) viol("C15|Block::getDataFrame|after " + lastop + "|frame not found|" + (exc.empty() ? "none" : exc), ctx(m));
+        else check_handle(fresh, false, !kept_full, m);
+        // ---- verdict per cell (row-major): do the read paths agree with the grid? ----
+        // Reported per check: the FIRST cell that every path reads wrongly in the same way (what is stored is not what the
+        // history says), and for every read path that disagrees with the others its first deviating cell.
+        size_t stored_wrong = 0; std::string stored_sig, stored_what;
+        std::map<std::string, std::pair<std::string, std::string>> path_first;   // path -> (signature, what)
+        std::map<std::string, size_t> path_cells;
         for (auto &e : seen) {
             const int r = e.first.first, c = e.first.second;
             const std::string want = key(m.g[r][c]);
@@ -722,22 +771,32 @@ struct Runner {
             if (!wrong) continue;
             const std::string cell = "cell (row " + std::to_string(r) + ", column " + std::to_string(c) + " " + vf::jstr(S.cols[c].name) + ")";
             if (wrong == e.second.size() && same) {
-                // every read path returns the same wrong value: what is stored is not what the history says
-                vf::violation("C15|" + lastop + "|" + tn + ", " + vc + "|every read path returns the same value, but not the one written last|" + deviation(m, r, c, first),
-                              ctx(m) + " ; then " + cell + " reads " + shorten(first) + " through all " + std::to_string(wrong) + " read paths, expected " + shorten(want));
+                if (!stored_wrong++) {
+                    stored_sig = "C15|" + lastop + "|" + tn + ", " + vc + "|every read path returns the same value, but not the one written last|" + deviation(m, r, c, first);
+                    stored_what = cell + " reads " + shorten(first) + " through all " + std::to_string(wrong) + " read paths, expected " + shorten(want);
+                }
                 continue;
             }
             // some paths deviate: group by path, tell kept / fresh apart
-            std::map<std::string, std::pair<int, int>> dev;   // path -> (#kept wrong, #fresh wrong)
+            std::map<std::string, std::pair<int, int>> dev, right;   // path -> (#kept, #fresh) wrong / right reads of this cell
             std::map<std::string, std::string> example;
-            for (auto &o : e.second) if (o.got != want) { (o.kept ? dev[o.path].first : dev[o.path].second)++; example[o.path] = o.got; }
+            for (auto &o : e.second) {
+                if (o.got != want) { (o.kept ? dev[o.path].first : dev[o.path].second)++; example[o.path] = o.got; }
+                else (o.kept ? right[o.path].first : right[o.path].second)++;
+            }
             for (auto &d : dev) {
-                std::string which = d.second.first && d.second.second ? "both handles" : d.second.first ? "kept handle only" : "fresh handle only";
-                vf::violation("C15|" + d.first + "|" + tn + ", " + vc + "|read path disagrees with the value written last (" + which + ")|" + deviation(m, r, c, example[d.first]),
-                              ctx(m) + " ; then " + d.first + " returns " + shorten(example[d.first]) + " for " + cell + ", expected " + shorten(want) +
-                              " (" + std::to_string(e.second.size() - wrong) + " of " + std::to_string(e.second.size()) + " reads of the cell are right)");
+                if (path_cells[d.first]++) continue;
+                // a handle is named only if the same path is right on the other handle
+                std::string which = d.second.first && right[d.first].second ? ", kept handle only" : d.second.second && right[d.first].first ? ", fresh handle only" : "";
+                path_first[d.first] = std::make_pair(
+                    "C15|" + d.first + "|" + tn + ", " + vc + "|read path disagrees with the other paths and the value written last" + which + "|" + deviation(m, r, c, example[d.first]),
+                    d.first + " returns " + shorten(example[d.first]) + " for " + cell + ", expected " + shorten(want) +
+                    " (" + std::to_string(e.second.size() - wrong) + " of " + std::to_string(e.second.size()) + " reads of the cell are right)");
             }
         }
+        if (stored_wrong) viol(stored_sig, ctx(m) + " ; then " + stored_what + (stored_wrong > 1 ? " (first of " + std::to_string(stored_wrong) + " such cells)" : ""));
+        for (auto &pf : path_first)
+            viol(pf.second.first, ctx(m) + " ; then " + pf.second.second + (path_cells[pf.first] > 1 ? " (first of " + std::to_string(path_cells[pf.first]) + " such cells)" : ""));
     }
 };
 
@@ -758,7 +817,7 @@ int main(int argc, char **argv) {
             const int depth = seed ? depthB : depthA;
             // the state the seed leaves (model only): decides statically which first steps can be extended
             Model m0(S); if (seed) m0.rows(2);
-            const bool split = depth >= 4;    // deep trees: one case per pair of leading steps
+            const bool split = depth >= (seed ? 4 : 3);    // deep trees: one case per pair of leading steps
             for (size_t first = 0; first < alpha.size(); first++) {
                 std::vector<long> seconds = {-1};
                 if (split && m0.classify(alpha[first]) == 1) for (size_t k = 0; k < alpha.size(); k++) seconds.push_back((long)k);
@@ -779,16 +838,21 @@ int main(int argc, char **argv) {
                         if (!ext || (int)seq.size() >= depth) return;
                         for (const Step &s : alpha) {
                             if (s.kind == REOPEN && seq.back().kind == REOPEN) continue;
-                            seq.push_back(s); rec(); seq.pop_back();
+                            seq.push_back(s);
+                            if (classify_last(S, seed, seq) != 0) rec();     // not enabled in that state: not a trace
+                            seq.pop_back();
                         }
                     };
+                    if (m0.classify(alpha[first]) == 0) continue;
                     if (!split || m0.classify(alpha[first]) != 1) { if (second < 0) rec(); }
                     else if (second < 0) { if (R.run(seed, seq, true)) vf::count("transitions"); vf::count("traces"); }
                     else {
                         const Step &s2 = alpha[(size_t)second];
                         if (s2.kind == REOPEN && alpha[first].kind == REOPEN) continue;
-                        if (!R.run(seed, seq, false)) continue;      // the leading step alone is reported by its own case
-                        seq.push_back(s2); rec(); seq.pop_back();
+                        if (!R.run(seed, seq, true, true)) continue;      // checked quietly: the leading step alone is reported by its own case
+                        seq.push_back(s2);
+                        if (classify_last(S, seed, seq) != 0) rec();
+                        seq.pop_back();
                     }
                     if (sampled < 6 && alpha[first].kind == ROWS && alpha[first].a == 3 && seed == 0 && si % 5 == 1) {
                         sampled++;
@@ -801,6 +865,10 @@ int main(int argc, char **argv) {
     vf::note("depth_empty_seed", std::to_string(depthA));
     vf::note("depth_filled_seed", std::to_string(depthB));
     vf::note("schemas", std::to_string(schemas.size()));
-    fprintf(stderr, "T_check %.2f T_cols %.2f T_schema %.2f wall %.2f\n", T_check, T_cols, T_schema, vf::wall());
+    {
+        std::string al = "{";
+        for (size_t si = 0; si < schemas.size(); si++) al += (si ? "," : "") + vf::jstr(schemas[si].label) + ":" + std::to_string(make_alphabet(schemas[si]).size());
+        vf::note("alphabet_sizes", al + "}");
+    }
     return vf::finish();
 }
